@@ -772,6 +772,36 @@ Definition init_ok_f (f : flags) : bool :=
 Lemma default_init_ok : forallb init_ok_f all_flags = true.
 Proof. vm_compute. reflexivity. Qed.
 
+(* what one entry of the finite check gives, with the tables kept abstract *)
+Lemma init_entry_extract f tf tn tt tpl r base rest t1 t2 :
+  init_ok_entry f tf tn tt (tpl, Some r) = true -> consistent f tpl = true -> pkg_base f tpl = Some base ->
+  strip_atoms base r = Some rest -> rest = (t1 ++ Ch slash :: t2)%list ->
+  no_var VNs rest = true /\
+  ((exists e', In e' tn /\ wit_same f tpl (base ++ t1 ++ init_text)%list e' = true)
+   \/ (exists e', In e' tt /\ wit_top tpl (base ++ t1 ++ init_text)%list e' = true)
+   \/ (exists e', In e' tf /\ wit_svc f tpl (base ++ t1 ++ init_text)%list e' = true)).
+Proof.
+  intros H C Hb Hs Er. unfold init_ok_entry in H. cbn [fst snd] in H. rewrite C, Hb, Hs in H. cbn [negb] in H.
+  apply andb_true_iff in H as [Hn Hall]. split; [exact Hn|].
+  rewrite forallb_forall in Hall. specialize (Hall t1). rewrite Er in Hall. specialize (Hall (slash_splits_in t1 t2)).
+  destruct (existsb (wit_same f tpl (base ++ t1 ++ init_text)%list) tn) eqn:W1.
+  - left. apply existsb_exists in W1. exact W1.
+  - destruct (existsb (wit_top tpl (base ++ t1 ++ init_text)%list) tt) eqn:W2.
+    + right. left. apply existsb_exists in W2. exact W2.
+    + right. right. apply existsb_exists in Hall. exact Hall.
+Qed.
+Lemma sym_table_in f e : In e (sym_table f) -> In (fst e) (client_templates default_templates) /\ snd e = sym_filename f (fst e).
+Proof. unfold sym_table. intro H. apply in_map_iff in H as (t & <- & Ht). auto. Qed.
+Lemma sym_table_entry f tpl : In tpl (client_templates default_templates) -> In (tpl, sym_filename f tpl) (sym_table f).
+Proof. unfold sym_table. intro H. apply in_map_iff. exists tpl. auto. Qed.
+Lemma init_table_entry f e : In e (sym_table f) -> init_ok_entry f (sym_table f) (sym_table (noctx f)) (sym_table (topctx f)) e = true.
+Proof.
+  intro H. pose proof default_init_ok as F. rewrite forallb_forall in F. specialize (F f (all_flags_complete f)).
+  unfold init_ok_f in F. rewrite forallb_forall in F. exact (F e H).
+Qed.
+Global Opaque sym_table.
+
+
 Lemma kind_insts_kind a o tpl view skip i : In i (kind_insts a o tpl view skip) ->
   is_some (i_service i) = service_tpl tpl /\ is_some (i_proto i) = occurs "%proto" tpl.
 Proof.
@@ -866,22 +896,22 @@ Proof.
   assert (Hlen : List.length (i_view i) <= 1).
   { destruct Hview as [->|[_ Hv]]; [simpl; lia | now apply shallow_view_len in Hv]. }
   rewrite Et in Hb. destruct (pkg_base_conc a old i tpl base_s W Hb) as (base & Hpb & Hbase).
-  pose proof default_init_ok as F. rewrite forallb_forall in F.
-  specialize (F (flags_of a old i) (all_flags_complete _)). unfold init_ok_f in F. rewrite forallb_forall in F.
-  assert (Hent : In (tpl, sym_filename (flags_of a old i) tpl) (sym_table (flags_of a old i))).
-  { unfold sym_table. apply in_map_iff. exists tpl. auto. }
-  apply F in Hent. clear F. unfold init_ok_entry in Hent. cbn [fst snd] in Hent.
   assert (C : consistent (flags_of a old i) tpl = true).
   { unfold consistent, flags_of. cbn [fl_svc fl_proto]. rewrite Ks, Kp, !eqb_reflx. reflexivity. }
-  rewrite C, Hpb in Hent. cbn [negb] in Hent.
-  destruct (sym_filename (flags_of a old i) tpl) as [r|] eqn:E; [|discriminate].
-  destruct (strip_atoms base r) as [rest|] eqn:Es; [|discriminate]. apply strip_atoms_sound in Es.
-  apply andb_true_iff in Hent as [Hnons Hall]. rewrite forallb_forall in Hall.
+  pose proof (init_table_entry (flags_of a old i) _ (sym_table_entry (flags_of a old i) tpl Htpl)) as Hent.
+  destruct (sym_filename (flags_of a old i) tpl) as [r|] eqn:E.
+  2:{ exfalso. unfold init_ok_entry in Hent. cbn [fst snd] in Hent. rewrite C, Hpb in Hent. discriminate. }
+  destruct (strip_atoms base r) as [rest|] eqn:Es.
+  2:{ exfalso. unfold init_ok_entry in Hent. cbn [fst snd] in Hent. rewrite C, Hpb, Es in Hent. discriminate. }
+  assert (Hnons : no_var VNs rest = true).
+  { unfold init_ok_entry in Hent. cbn [fst snd] in Hent. rewrite C, Hpb, Es in Hent. cbn [negb] in Hent.
+    apply andb_true_iff in Hent as [Hn _]. exact Hn. }
+  assert (Es' := Es). apply strip_atoms_sound in Es'.
   assert (Hn : inst_name a i = conc (val_of a i) r) by (apply (inst_name_sym a old i r W Hwf); now rewrite Et).
-  rewrite Hn, Es, conc_app, Hbase in Hname. apply sapp_inv_head in Hname.
+  rewrite Hn, Es', conc_app, Hbase in Hname. apply sapp_inv_head in Hname.
   destruct (conc_split_slash (val_of a i) rest x y) as (t1 & t2 & Er & Ex & Ey); [|exact Hname|].
   { intros v Hv. apply (vals_slashfree a old i W Hwf Hlen). intros ->. exact (no_var_in VNs rest Hnons Hv). }
-  specialize (Hall t1). rewrite Er in Hall. specialize (Hall (slash_splits_in t1 t2)).
+  destruct (init_entry_extract _ _ _ _ tpl r base rest t1 t2 Hent C Hpb Es Er) as [_ Hwit]. clear Hent.
   set (target := (base ++ t1 ++ init_text)%list) in *.
   assert (Htarget : conc (val_of a i) target = base_s ++ x ++ "/__init__.py").
   { unfold target. rewrite !conc_app, Hbase, Ex. unfold init_text. now rewrite conc_atoms_of. }
@@ -891,49 +921,48 @@ Proof.
                    exists i'', In i'' l /\ inst_name a i'' = base_s ++ x ++ "/__init__.py").
   { intros i' Hin Hsym Hext. exists i'. split; [assumption|].
     rewrite (inst_name_sym a old i' target W (proj2 (Hinv i' Hin)) Hsym), <- Htarget. now apply conc_ext. }
-  destruct (existsb (wit_same (flags_of a old i) tpl target) (sym_table (noctx (flags_of a old i)))) eqn:W1.
+  destruct Hwit as [(e' & He' & Hw)|[(e' & He' & Hw)|(e' & He' & Hw)]];
+    apply sym_table_in in He' as [Htpl' Hsnd]; destruct e' as [tpl' r']; cbn [fst snd] in Htpl', Hsnd.
   - (* an __init__ template rendered for the same view *)
-    apply existsb_exists in W1 as (e' & He' & Hw). unfold wit_same in Hw.
-    destruct (opt_atoms_eqb (snd e') target) eqn:Eq; [|discriminate]. apply opt_atoms_eqb_eq in Eq.
+    unfold wit_same in Hw. cbn [fst snd] in Hw.
+    destruct (opt_atoms_eqb r' target) eqn:Eq; [|discriminate]. apply opt_atoms_eqb_eq in Eq. rewrite Hsnd in Eq.
     apply andb_true_iff in Hw as [Hw Hle]. apply andb_true_iff in Hw as [Hw Hnp]. apply andb_true_iff in Hw as [Hw Hnsv].
     apply andb_true_iff in Hw as [Hp Hsubc].
-    unfold sym_table in He'. apply in_map_iff in He' as (tpl' & <- & Htpl'). cbn [fst snd] in *.
     apply (Finish (mk_inst tpl' (i_view i) None None)).
-    + rewrite El. apply in_flat_map. exists tpl'. split; [assumption|].
-      apply plain_in; [assumption | eapply ggate_le_sound; eauto |].
-      destruct Hview as [E0|[_ Hv]]; [now left|]. right. split; [|assumption].
+    + rewrite El. apply in_flat_map. exists tpl'. split; [exact Htpl'|].
+      apply plain_in; [exact Hp | exact (ggate_le_sound tpl tpl' o Hle G) |].
+      destruct Hview as [E0|[_ Hv]]; [left; exact E0|]. right. split; [|exact Hv].
       destruct (i_view i) as [|n vl] eqn:Ev; [apply subviews_top_nonempty in Hv as (? & ? & _); discriminate|].
       unfold flags_of in Hsubc. cbn [fl_sub] in Hsubc. rewrite Ev in Hsubc. exact Hsubc.
     + exact Eq.
     + intros v Hv. destruct v; try reflexivity.
       * exfalso. exact (no_var_in VSvc target Hnsv Hv).
       * exfalso. exact (no_var_in VProto target Hnp Hv).
-  - destruct (existsb (wit_top tpl target) (sym_table (topctx (flags_of a old i)))) eqn:W2.
-    + (* an __init__ template rendered for the top view (directories above the sub-package) *)
-      apply existsb_exists in W2 as (e' & He' & Hw). unfold wit_top in Hw.
-      destruct (opt_atoms_eqb (snd e') target) eqn:Eq; [|discriminate]. apply opt_atoms_eqb_eq in Eq.
-      apply andb_true_iff in Hw as [Hw Hle]. apply andb_true_iff in Hw as [Hw Hnsub]. apply andb_true_iff in Hw as [Hw Hnp].
-      apply andb_true_iff in Hw as [Hp Hnsv].
-      unfold sym_table in He'. apply in_map_iff in He' as (tpl' & <- & Htpl'). cbn [fst snd] in *.
-      apply (Finish (mk_inst tpl' [] None None)).
-      * rewrite El. apply in_flat_map. exists tpl'. split; [assumption|].
-        apply plain_in; [assumption | eapply ggate_le_sound; eauto | now left].
-      * exact Eq.
-      * intros v Hv. destruct v; try reflexivity.
-        -- exfalso. exact (no_var_in VSub target Hnsub Hv).
-        -- exfalso. exact (no_var_in VSvc target Hnsv Hv).
-        -- exfalso. exact (no_var_in VProto target Hnp Hv).
-    + (* an __init__ template rendered for the same service *)
-      apply existsb_exists in Hall as (e' & He' & Hw). unfold wit_svc in Hw.
-      destruct (opt_atoms_eqb (snd e') target) eqn:Eq; [|discriminate]. apply opt_atoms_eqb_eq in Eq.
-      apply andb_true_iff in Hw as [Hw Hle]. apply andb_true_iff in Hw as [Hw Hfp]. apply andb_true_iff in Hw as [Hw Hfs].
-      apply andb_true_iff in Hw as [Hw Hsa]. apply andb_true_iff in Hw as [Hw Hsub']. apply andb_true_iff in Hw as [Hw Hsub].
-      apply andb_true_iff in Hw as [Hst Hst'].
-      unfold sym_table in He'. apply in_map_iff in He' as (tpl' & <- & Htpl'). cbn [fst snd] in *.
-      destruct (tpl_insts_service a o tpl i Hs Hst Hsub Hti) as (s & u & Esv & Epr & Hu & Hsu & Eview & Hsg).
-      apply (Finish (mk_inst tpl' (u_sub u) (Some s) None)).
-      * rewrite El. apply in_flat_map. exists tpl'. split; [assumption|].
-        apply service_in; try assumption; [eapply ggate_le_sound; eauto | now apply sgate_always_sound].
-      * unfold flags_of in *. cbn [i_view i_service i_proto i_tpl mk_inst] in *. rewrite Eview, <- Esv, <- Epr. exact Eq.
-      * intros v _. unfold val_of. cbn [i_view i_service i_proto mk_inst]. now rewrite Eview, Esv, Epr.
+  - (* an __init__ template rendered for the top view (directories above the sub-package) *)
+    unfold wit_top in Hw. cbn [fst snd] in Hw.
+    destruct (opt_atoms_eqb r' target) eqn:Eq; [|discriminate]. apply opt_atoms_eqb_eq in Eq. rewrite Hsnd in Eq.
+    apply andb_true_iff in Hw as [Hw Hle]. apply andb_true_iff in Hw as [Hw Hnsub]. apply andb_true_iff in Hw as [Hw Hnp].
+    apply andb_true_iff in Hw as [Hp Hnsv].
+    apply (Finish (mk_inst tpl' [] None None)).
+    + rewrite El. apply in_flat_map. exists tpl'. split; [exact Htpl'|].
+      apply plain_in; [exact Hp | exact (ggate_le_sound tpl tpl' o Hle G) | now left].
+    + exact Eq.
+    + intros v Hv. destruct v; try reflexivity.
+      * exfalso. exact (no_var_in VSub target Hnsub Hv).
+      * exfalso. exact (no_var_in VSvc target Hnsv Hv).
+      * exfalso. exact (no_var_in VProto target Hnp Hv).
+  - (* an __init__ template rendered for the same service *)
+    unfold wit_svc in Hw. cbn [fst snd] in Hw.
+    destruct (opt_atoms_eqb r' target) eqn:Eq; [|discriminate]. apply opt_atoms_eqb_eq in Eq. rewrite Hsnd in Eq.
+    apply andb_true_iff in Hw as [Hw Hle]. apply andb_true_iff in Hw as [Hw Hfp]. apply andb_true_iff in Hw as [Hw Hfs].
+    apply andb_true_iff in Hw as [Hw Hsa]. apply andb_true_iff in Hw as [Hw Hsub']. apply andb_true_iff in Hw as [Hw Hsub].
+    apply andb_true_iff in Hw as [Hst Hst'].
+    destruct (tpl_insts_service a o tpl i Hs Hst Hsub Hti) as (s & u & Esv & Epr & Hu & Hsu & Eview & Hsg).
+    apply (Finish (mk_inst tpl' (u_sub u) (Some s) None)).
+    + rewrite El. apply in_flat_map. exists tpl'. split; [exact Htpl'|].
+      apply service_in; [exact Hs | exact Hst' | exact Hsub' | exact (ggate_le_sound tpl tpl' o Hle G)
+                        | exact (sgate_always_sound tpl' o Hsa) | exact Hu | exact Hsu].
+    + replace (flags_of a old (mk_inst tpl' (u_sub u) (Some s) None)) with (flags_of a old i); [exact Eq|].
+      unfold flags_of. cbn [i_view i_service i_proto mk_inst]. now rewrite Eview, Esv, Epr.
+    + intros v _. unfold val_of. cbn [i_view i_service i_proto mk_inst]. now rewrite Eview, Esv, Epr.
 Qed.
